@@ -55,6 +55,22 @@ def h_lu_solve(cx, n, m=1, which='lu_solve', concrete=None):
     cx.eq('b_unmodified', B, B0)
 
 
+def h_solve_shared_rows(cx, n, which):
+    """right-hand side built with the constant-rows idiom  b = [row] * n  (all rows are the SAME list object)"""
+    L = geo.M('linalg')
+    A = _matrix(cx, n)
+    row = cx.reals('r', 2)
+    B = [row] * n
+    A0 = _copy(A)
+    try:
+        X = getattr(L, which)(A, B)
+    except ZeroDivisionError:
+        cx.check('no_result', True)
+        return
+    cx.eq('A.x==b', _matmul(A0, X), [list(row) for _ in range(n)])
+    cx.eq('b_unmodified', [list(r) for r in B], [list(row) for _ in range(n)])
+
+
 def h_decomposition(cx, n):
     L = geo.M('linalg')
     A = _matrix(cx, n)
@@ -272,6 +288,8 @@ def instances(tier):
     for n in ((1, 2, 3) if quick else (1, 2, 3, 4)):
         out.append(inst('lu_solve n%d' % n, h_lu_solve, timeout=900, n=n, m=2 if n <= 2 else 1))
         out.append(inst('lu_decomposition n%d' % n, h_decomposition, timeout=900, n=n))
+    for which in ('lu_solve', 'lu_factor'):
+        out.append(inst('%s n2 shared rhs rows' % which, h_solve_shared_rows, n=2, which=which))
     for n in (1, 2):
         out.append(inst('lu_factor n%d' % n, h_lu_solve, n=n, m=2, which='lu_factor'))
         out.append(inst('matrix_pivot n%d' % n, h_pivot, n=n))
